@@ -80,7 +80,11 @@ func c10(r *h.Result, rng *h.Rng, tier string, replay string) error {
 		"taint: every position of c10_positions.go × router configuration (versions / old layout / cluster) × 3 (quick) or 20 (thorough) markers Head++hostile++Tail — first marker always '\\, then 1–6 fragments (70% from a dictionary of quotes, backslashes, NUL, newlines, comment openers, LIKE wildcards, invalid UTF-8, query-language punctuation; else random bytes / letters), narrowed per level to what the transport or grammar carries; the second marker of every position is preceded by a digit-led fragment, the third by another hostile leading fragment (quote, backslash, sign, bracket, blank …), later ones in half of the cases; each reaching marker is paired with the harmless marker Head++abc++Tail; all cases non-trivial; distinct by position, configuration, level, marker. " +
 		"inventory: one case per Gen.Params entry. leaves: the positions that carry query-language text × 2 (single node / cluster) × the same marker counts, plus the non-language string arguments (label, tag, group_by, label_names). " +
 		"grammar: one case per token-capturing grammar field (Gen.GrammarFields). jsonparser: 600 (quick) / 20000 `| json` queries with 1–3 parameters of 1–4 path parts (identifier, [N], quoted name; a third of the names digit-led), distinct by query. " +
-		"text/tags/fpsql/profsql: the generators of C07, C08, C11, C17, 150 (quick) / 3000 cases each"
+		"format: 400 (quick) / 12000 objects, half line_format templates of 0–5 pieces (hostile text incl. `{0}`, quotes, backslashes; `{{.field}}`, chained fields, string nodes), half label_format stages of 1–3 operations (rename / template constant), distinct by template. " +
+		"tempo: 400 / 12000: 3/4 searches with 0–3 tags (names/values hostile valid UTF-8, literal or quoted syntax; the four conditions; from/to/min/max/limit at 0 and not; schema version flag on/off/late), 1/4 trace-by-id + tag-values with arbitrary bytes. " +
+		"shape-metric: 400 / 12000 metric queries of C08's generator (range / vector aggregation / topk, unwrap, by/without, comparisons, ms durations) paired the same way. " +
+		"shape: 400 / 12000 queries of C07's extended generator, each paired with a copy whose string leaves are all replaced (hostile text), distinct by pair. " +
+		"text/tags/fpsql/profsql/textx/model-series: the generators of C07, C08, C11, C17, C07ext, C13, 150 (quick) / 3000 cases each"
 	if err := c10Escape(r, rng.Fork(), n); err != nil {
 		return err
 	}
@@ -112,6 +116,26 @@ func c10(r *h.Result, rng *h.Rng, tier string, replay string) error {
 	if err := c10JsonParser(r, rng.Fork(), nj); err != nil {
 		return err
 	}
+	// the SQL objects of | line_format / | label_format, legacy Tempo, two requests of the same shape, the census numbers
+	no := 400
+	if tier != "quick" {
+		no = 12000
+	}
+	if err := c10Format(r, rng.Fork(), no); err != nil {
+		return err
+	}
+	if err := c10TempoModel(r, rng.Fork(), no); err != nil {
+		return err
+	}
+	if err := c10Shape(r, rng.Fork(), no); err != nil {
+		return err
+	}
+	if err := c10ShapeMetric(r, rng.Fork(), no); err != nil {
+		return err
+	}
+	if err := c10Census(r); err != nil {
+		return err
+	}
 	// the tie of the planner models the C10 theorems are about (plan_closed_log/metric/traceql, fpquery_closed,
 	// pquery_closed) to the real planners: the byte-equality streams of C07 / C08 / C11 / C17, run here too on their
 	// generators (request strings include quotes, backslashes, NUL, comment openers)
@@ -135,6 +159,13 @@ func c10(r *h.Result, rng *h.Rng, tier string, replay string) error {
 		return err
 	}
 	if err := c17Prof(r, rng.Fork(), nt); err != nil {
+		return err
+	}
+	// … plan_closed_logx / plan_closed_script (C07's extended text tie) and plan_closed_series / plan_closed_values (C13's)
+	if err := c07TextX(r, rng.Fork(), nt); err != nil {
+		return err
+	}
+	if err := c13ModelSeries(r, rng.Fork(), nt); err != nil {
 		return err
 	}
 	return nil
